@@ -4,6 +4,7 @@ import (
 	"fmt"
 	"net"
 
+	"github.com/gopcua/opcua/server"
 	"github.com/gopcua/opcua/ua"
 
 	"verifharness/internal/rng"
@@ -189,23 +190,103 @@ var svcNames = []string{"findservers", "findserversonnetwork", "getendpoints", "
 var stdRefTypes = []uint32{0, 31, 32, 33, 34, 35, 36, 37, 38, 39, 40, 41, 44, 45, 46, 47, 48, 49, 51, 52, 53, 54, 117, 3065, 9004, 9005, 9006, 14476, 99999}
 var stdNodes = []uint32{84, 85, 86, 87, 88, 89, 90, 91, 2253, 2254, 2255, 2256, 2268, 2274, 2994, 2996, 58, 61, 62, 63, 68, 69, 24, 26, 27, 28, 29, 22, 12, 31, 32, 33, 34, 35, 45, 47, 2004, 2013, 2020, 2138, 11715, 3062, 78, 80, 11508}
 
-func genBrowse(r *rng.R, nodes []NodeJ, ns uint16, hist int) BDesc {
+// custom reference types of the added namespace (c33 mode): a string id below HierarchicalReferences, a GUID id below it,
+// and ns=1;i=0 below NonHierarchicalReferences
+var customRefs []NID
+var c33Shared []NID
+
+// parent reference type (one step up the HasSubtype hierarchy) by key
+var refParent = map[uint64]uint64{35: 33, 47: 34, 46: 47, 34: 33, 45: 34, 40: 32, 37: 32, 38: 32, 39: 32, 41: 32, 33: 31, 32: 31, 48: 35, 49: 47}
+
+func setupC33(s *sut) {
+	ns := s.ns.ID()
+	mk := func(id *ua.NodeID) *server.Node {
+		n := server.NewNode(id, map[ua.AttributeID]*ua.DataValue{ua.AttributeIDNodeClass: server.DataValueFromValue(uint32(ua.NodeClassReferenceType))}, nil, nil)
+		s.ns.AddNode(n)
+		return n
+	}
+	a := mk(ua.NewStringNodeID(ns, "CustomRefA"))
+	g := mk(ua.NewGUIDNodeID(ns, "550e8400-e29b-41d4-a716-446655440000"))
+	z := mk(ua.NewNumericNodeID(ns, 0))
+	n33 := s.srv.Node(ua.NewNumericNodeID(0, 33))
+	n32 := s.srv.Node(ua.NewNumericNodeID(0, 32))
+	n33.AddRef(a, server.RefType(45), true)
+	a.AddRef(g, server.RefType(45), true)
+	n32.AddRef(z, server.RefType(45), true)
+	for _, n := range []*server.Node{a, g, z} {
+		customRefs = append(customRefs, nidOf(n.ID()))
+	}
+	refParent[customRefs[0].Key] = 33
+	refParent[customRefs[1].Key] = customRefs[0].Key
+	refParent[customRefs[2].Key] = 32
+	c33Shared = append([]NID{nidOf(n33.ID()), nidOf(n32.ID())}, customRefs...)
+}
+
+func refTypeNID(key uint64) NID {
+	for _, c := range customRefs {
+		if c.Key == key {
+			return c
+		}
+	}
+	return nidOf(ua.NewNumericNodeID(0, uint32(key)))
+}
+
+func genBrowse(r *rng.R, nodes []NodeJ, ns uint16, hist int, s *sut) BDesc {
 	var node NID
+	var have []RefJ
 	switch {
 	case len(nodes) > 0 && r.Intn(3) == 0:
 		node = pickTarget(r, nodes, ns, hist)
+		for _, n := range nodes {
+			if n.ID.Key == node.Key {
+				have = n.Refs
+			}
+		}
 	default:
 		node = nidOf(ua.NewNumericNodeID(0, stdNodes[r.Intn(len(stdNodes))]))
+		if n := s.srv.Node(parseNID(node)); n != nil {
+			have = dumpNode(n).Refs
+		}
 	}
 	rt := nidOf(ua.NewNumericNodeID(0, stdRefTypes[r.Intn(len(stdRefTypes))]))
-	if r.Intn(20) == 0 {
+	dirHint := -1
+	switch x := r.Intn(24); {
+	case x < 13 && len(have) > 0:
+		// a reference type the node really has, or one or two steps up its hierarchy
+		rf := have[r.Intn(len(have))]
+		if r.Intn(4) > 0 {
+			dirHint = 1
+			if rf.Fwd {
+				dirHint = 0
+			}
+		}
+		if rf.Type != nil {
+			k := *rf.Type
+			for up := r.Intn(3); up > 0; up-- {
+				if p, ok := refParent[k]; ok {
+					k = p
+				}
+			}
+			rt = refTypeNID(k)
+		}
+	case x < 15:
+		rt = nidOf(ua.NewNumericNodeID(0, 0))
+	case x < 18 && len(customRefs) > 0:
+		rt = customRefs[r.Intn(len(customRefs))]
+	case x == 18:
 		rt = nidOf(ua.NewNumericNodeID(ns, 45))
+	case x == 19:
+		rt = nidOf(ua.NewStringNodeID(ns, "NoSuchRefType"))
 	}
 	mask := uint32(0)
-	if r.Intn(3) == 0 {
+	if r.Intn(4) == 0 {
 		mask = uint32(r.Pick(1, 2, 3, 4, 8, 16, 32, 64, 255, 0x80, 0xffffffff))
 	}
-	return BDesc{Node: node, Dir: uint32(r.Pick(0, 0, 1, 2, 2, 3)), RefType: rt, Subtypes: r.Bool(), Mask: mask}
+	dir := uint32(r.Pick(0, 0, 0, 1, 2, 2, 2, 3))
+	if dirHint >= 0 && r.Intn(5) > 0 {
+		dir = uint32(dirHint)
+	}
+	return BDesc{Node: node, Dir: dir, RefType: rt, Subtypes: r.Intn(3) > 0, Mask: mask}
 }
 
 func genRefs(r *rng.R, nodes []NodeJ, ns uint16) []RefJ {
@@ -213,13 +294,18 @@ func genRefs(r *rng.R, nodes []NodeJ, ns uint16) []RefJ {
 	for k := r.Intn(7); k > 0; k-- {
 		ti := uint32(r.Pick(35, 47, 46, 40, 45, 33, 37, 38))
 		tk := uint64(ti)
+		tstr := ""
+		if len(customRefs) > 0 && r.Intn(3) == 0 {
+			c := customRefs[r.Intn(len(customRefs))]
+			ti, tk, tstr = 0, c.Key, c.Str
+		}
 		var tgt NID
 		if len(nodes) > 0 && r.Bool() {
 			tgt = nodes[r.Intn(len(nodes))].ID
 		} else {
 			tgt = nidOf(ua.NewNumericNodeID(0, stdNodes[r.Intn(len(stdNodes))]))
 		}
-		rj := RefJ{Type: &tk, TInt: ti, Fwd: r.Intn(4) > 0, Target: &tgt, Class: uint32(r.Pick(0, 1, 2, 4, 8, 16, 32, 64)), Named: r.Intn(12) > 0}
+		rj := RefJ{Type: &tk, TStr: tstr, TInt: ti, Fwd: r.Intn(4) > 0, Target: &tgt, Class: uint32(r.Pick(0, 1, 2, 4, 8, 16, 32, 64)), Named: r.Intn(12) > 0}
 		if r.Intn(15) == 0 {
 			rj.Target = nil
 		}
@@ -261,15 +347,45 @@ func generate(r *rng.R, mode string, hist int, s *sut) History {
 		}
 		add(Op{Kind: "read", Ch: 0, Tok: "s0", Reads: rvs})
 	case "c33":
+		h.Shared = c33Shared
 		session(0, 0)
 		for k := r.Range(6, 12); k > 0; k-- {
 			var bds []BDesc
 			for j := r.Range(1, 3); j > 0; j-- {
-				bds = append(bds, genBrowse(r, h.Nodes, ns, hist))
+				bds = append(bds, genBrowse(r, h.Nodes, ns, hist, s))
 			}
 			add(Op{Kind: "browse", Ch: 0, Tok: "s0", Browses: bds})
 		}
 	case "c32", "c35", "c29":
+		if mode == "c29" && hist%6 == 3 {
+			// notification storm: a monitored node keeps changing after its item / subscription is gone. Every write must
+			// still be answered (a stale item would feed the dead subscription's bounded notification queue).
+			id := ua.NewStringNodeID(ns, fmt.Sprintf("h%d_storm", hist))
+			v := DVal{V: Vnt{K: "u32", N: 1}}
+			h.Nodes = append(h.Nodes, NodeJ{ID: nidOf(id), Val: "dv", ValDV: &v})
+			tgt := nidOf(id)
+			session(0, 0)
+			add(Op{Kind: "createsub", Ch: 0, Tok: "s0"})
+			add(Op{Kind: "createitems", Ch: 0, Tok: "s0", Sub: "sub0", Reads: []RV{{Node: tgt, Attr: 13}}})
+			if r.Bool() {
+				add(Op{Kind: "createitems", Ch: 0, Tok: "s0", Sub: "sub0", Reads: []RV{{Node: tgt, Attr: 13}, {Node: h.Nodes[0].ID, Attr: 13}}})
+			}
+			switch r.Intn(3) {
+			case 0:
+				add(Op{Kind: "deleteitems", Ch: 0, Tok: "s0", IDRefs: []string{"item0"}})
+				add(Op{Kind: "deletesubs", Ch: 0, Tok: "s0", IDRefs: []string{"sub0"}})
+			case 1:
+				add(Op{Kind: "deletesubs", Ch: 0, Tok: "s0", IDRefs: []string{"sub0"}})
+			default:
+				add(Op{Kind: "deleteitems", Ch: 0, Tok: "s0", IDRefs: []string{"item0", "item1", "item2"}})
+				add(Op{Kind: "deletesubs", Ch: 0, Tok: "s0", IDRefs: []string{"sub0"}})
+			}
+			for k := 0; k < 115; k++ {
+				add(Op{Kind: "write", Ch: 0, Tok: "s0", Writes: []WV{{Node: tgt, Attr: 13, Val: DVal{V: Vnt{K: "u32", N: int64(k + 2)}}}}})
+			}
+			add(Op{Kind: "read", Ch: 0, Tok: "s0", Reads: []RV{{Node: tgt, Attr: 13}}})
+			return h
+		}
 		nsess := r.Range(2, 3)
 		adversarial := map[string]int{"c32": 6, "c35": 45, "c29": 25}[mode]
 		created := 0
@@ -304,6 +420,13 @@ func generate(r *rng.R, mode string, hist int, s *sut) History {
 				}
 				return out
 			}
+			// the subscription id a monitored item request names: usually one that exists (often the caller's own)
+			anySub := func() string {
+				if nsub > 0 && r.Intn(5) > 0 {
+					return fmt.Sprintf("sub%d", r.Intn(nsub))
+				}
+				return fmt.Sprintf("n%d", r.Pick(0, 1, 999999))
+			}
 			switch x := r.Intn(100); {
 			case x < 18:
 				op := Op{Kind: "createsub", Ch: ch, Tok: tok}
@@ -328,9 +451,9 @@ func generate(r *rng.R, mode string, hist int, s *sut) History {
 				add(Op{Kind: "createitems", Ch: ch, Tok: tok, Sub: sub, Reads: rvs})
 				nitem += len(rvs)
 			case x < 58:
-				add(Op{Kind: "deleteitems", Ch: ch, Tok: tok, IDRefs: idrefs("item", nitem)})
+				add(Op{Kind: "deleteitems", Ch: ch, Tok: tok, Sub: anySub(), IDRefs: idrefs("item", nitem)})
 			case x < 66:
-				add(Op{Kind: "setmode", Ch: ch, Tok: tok, IDRefs: idrefs("item", nitem), Mode: uint32(r.Pick(0, 1, 2))})
+				add(Op{Kind: "setmode", Ch: ch, Tok: tok, Sub: anySub(), IDRefs: idrefs("item", nitem), Mode: uint32(r.Pick(0, 1, 2))})
 			case x < 74:
 				add(Op{Kind: "read", Ch: ch, Tok: tok, Reads: genReads(r, h.Nodes, ns, hist, 3)})
 			case x < 82:
